@@ -534,7 +534,8 @@ class KeyringSAXContentHandler(ContentHandler):
         if isinstance(value, str):
             value = value.encode("utf-8")
 
-        self.output.append(len(value))
+        # one length octet - longer values (eg. a long list of senders) wrap around
+        self.output.append(len(value) & 0xFF)
         self.output.extend(value)
 
 
